@@ -419,21 +419,21 @@ func setOf(xs []int) (m uint32, foreign bool) {
 
 // judge compares the observations with the reference. Every clause is
 // reported separately (own symptom), so a known defect of one clause does not
-// hide a failure of another.
+// hide a failure of another. The caller appends e.describe(ex) to the detail
+// of the violations it keeps.
 func (e *env) judge(ex *Expect) []*eng.Violation {
 	c := e.c
 	var out []*eng.Violation
 	op := map[string]string{"walk": "Walk", "fetch": "FetchGraph"}[c.API]
 	add := func(symptom, opn, detail string, kv ...string) {
 		kv = append(kv, "walker", c.walker(), "api", c.API)
-		v := eng.V(symptom, opn, detail+"\n"+e.describe(ex), kv...)
+		v := eng.V(symptom, opn, detail, kv...)
 		v.Replay = c
 		out = append(out, v)
 	}
 	if e.panicked != nil {
 		e.panicked.Replay = c
 		e.panicked.Features = map[string]string{"walker": c.walker(), "api": c.API}
-		e.panicked.Detail += "\n" + e.describe(ex)
 		return []*eng.Violation{e.panicked}
 	}
 	complete := ex.U == 0
